@@ -287,11 +287,21 @@ func runHierF(decls []*ref.HDecl, units []ref.Unit, filter string) c05Obs {
 
 // ---- driver (ii): EDI reader ----
 
-func ediDecls(ds []*ref.HDecl) []*edi.SegDecl {
+// c05VariantDefaultsOmitted is the input variant 0 with the schema spelling changed: a min / max that
+// equals the documented default of the format is left out of the declaration.
+const c05VariantDefaultsOmitted = 9
+
+func ediDecls(ds []*ref.HDecl, omitDefaults bool) []*edi.SegDecl {
 	var out []*edi.SegDecl
 	for _, d := range ds {
 		min, max := d.Min, d.Max
-		sd := &edi.SegDecl{Name: d.Name, IsTarget: d.Target, Min: &min, Max: &max, Children: ediDecls(d.Children)}
+		sd := &edi.SegDecl{Name: d.Name, IsTarget: d.Target, Min: &min, Max: &max, Children: ediDecls(d.Children, omitDefaults)}
+		if omitDefaults && min == 1 {
+			sd.Min = nil
+		}
+		if omitDefaults && max == 1 {
+			sd.Max = nil
+		}
 		if d.Group {
 			t := "segment_group"
 			sd.Type = &t
@@ -348,7 +358,11 @@ func runEDI(decls []*ref.HDecl, units []ref.Unit, variant int) c05Obs {
 }
 
 func runEDIF(decls []*ref.HDecl, units []ref.Unit, variant int, filter string) c05Obs {
-	fd := &edi.FileDecl{SegDelim: "~", ElemDelim: "*", SegDecls: ediDecls(decls)}
+	omit := variant == c05VariantDefaultsOmitted
+	if omit {
+		variant = 0
+	}
+	fd := &edi.FileDecl{SegDelim: "~", ElemDelim: "*", SegDecls: ediDecls(decls, omit)}
 	r, err := edi.NewReader("in", strings.NewReader(ediInput(units, variant)), fd, filter)
 	if err != nil {
 		return c05Obs{Terminal: "newreader-error:" + err.Error()}
@@ -385,13 +399,19 @@ func c05Adapt(ds []*ref.HDecl) {
 	}
 }
 
-func flatSchema(format string, ds []*ref.HDecl) string {
+func flatSchema(format string, ds []*ref.HDecl, omitDefaults bool) string {
 	var rec func(ds []*ref.HDecl) string
 	rec = func(ds []*ref.HDecl) string {
 		var parts []string
 		for _, d := range ds {
 			var f []string
-			f = append(f, fmt.Sprintf(`"name":%q,"min":%d,"max":%d`, d.Name, d.Min, d.Max))
+			f = append(f, fmt.Sprintf(`"name":%q`, d.Name))
+			if !(omitDefaults && d.Min == 0) {
+				f = append(f, fmt.Sprintf(`"min":%d`, d.Min))
+			}
+			if !(omitDefaults && d.Max == -1) {
+				f = append(f, fmt.Sprintf(`"max":%d`, d.Max))
+			}
 			if d.Target {
 				f = append(f, `"is_target":true`)
 			}
@@ -542,11 +562,15 @@ func c05CheckCase(cs c05Case) (sig, detail string) {
 	default:
 		c05Adapt(decls)
 		want = refObs(decls, units)
-		mk, err := flatFactory(cs.Driver, decls)
+		mk, err := flatFactory(cs.Driver, decls, cs.Variant == c05VariantDefaultsOmitted)
 		if err != nil {
 			return "harness:schema-rejected", err.Error()
 		}
-		real = runFlat(mk, flatInput(cs.Driver, units, cs.Variant), nil)
+		iv := cs.Variant
+		if iv == c05VariantDefaultsOmitted {
+			iv = 0
+		}
+		real = runFlat(mk, flatInput(cs.Driver, units, iv), nil)
 		loose = true
 	}
 	if sameObs(real, want, loose) {
@@ -567,6 +591,16 @@ func c05CheckCase(cs c05Case) (sig, detail string) {
 		sig = "filtered-target:" + sig
 	}
 	return sig, fmt.Sprintf("hierarchy %s\nunits %v variant %d filter-out-serial %d\n-- implementation:\n%s\n-- reference:\n%s", ref.Describe(decls), cs.Units, cs.Variant, cs.FilterSerial, real, want)
+}
+
+// c05HasOcc tells if some declaration has the given min or the given max
+func c05HasOcc(ds []*ref.HDecl, min, max int) bool {
+	for _, d := range ds {
+		if d.Min == min || d.Max == max || c05HasOcc(d.Children, min, max) {
+			return true
+		}
+	}
+	return false
 }
 
 // target xpath filters rejecting every target instance that contains the unit with serial k
@@ -601,8 +635,8 @@ func init() {
 	})
 }
 
-func flatFactory(format string, decls []*ref.HDecl) (flatReaderFactory, error) {
-	schemaText := flatSchema(format, decls)
+func flatFactory(format string, decls []*ref.HDecl, omitDefaults bool) (flatReaderFactory, error) {
+	schemaText := flatSchema(format, decls, omitDefaults)
 	return hx.FormatReaderFactory(schemaText)
 }
 
@@ -665,18 +699,26 @@ func c05Run(occFull, occRed [][2]int) func(c *core.Ctx) {
 					return false
 				}
 				c.Count("states", 1) // one matcher configuration (hierarchy) fully explored
-				var mk flatReaderFactory
+				var mk, mkOmit flatReaderFactory
 				work := decls
 				if pl.driver == "csv2" || pl.driver == "fixedlength2" {
 					work = fromJSONDecls(toJSONDecls(decls))
 					c05Adapt(work)
 					var err error
-					mk, err = flatFactory(pl.driver, work)
+					mk, err = flatFactory(pl.driver, work, false)
 					if err != nil {
-						c.HarnessError("generated schema rejected: " + err.Error() + "\n" + flatSchema(pl.driver, work))
+						c.HarnessError("generated schema rejected: " + err.Error() + "\n" + flatSchema(pl.driver, work, false))
 						return true
 					}
+					if flatSchema(pl.driver, work, true) != flatSchema(pl.driver, work, false) {
+						if mkOmit, err = flatFactory(pl.driver, work, true); err != nil {
+							c.HarnessError("generated schema rejected: " + err.Error() + "\n" + flatSchema(pl.driver, work, true))
+							return true
+						}
+					}
 				}
+				// the same hierarchy spelled with every min / max that equals the format's default left out
+				omitVariant := mkOmit != nil || (pl.driver == "edi" && c05HasOcc(work, 1, 1))
 				names := make([]string, 0, pl.maxLen)
 				var cur []string
 				c.Begin(func() interface{} {
@@ -690,15 +732,24 @@ func c05Run(occFull, occRed [][2]int) func(c *core.Ctx) {
 					cur = names
 					units := mkUnits(names)
 					want := refObs(work, units)
-					for v := 0; v < pl.variants; v++ {
+					for v := 0; v <= pl.variants; v++ {
+						if v == pl.variants {
+							if !omitVariant {
+								break
+							}
+							v = c05VariantDefaultsOmitted
+							c.Count("defaults_omitted_runs", 1)
+						}
 						var real c05Obs
 						loose := true
-						switch pl.driver {
-						case "hier":
+						switch {
+						case pl.driver == "hier":
 							real = runHier(work, units)
-						case "edi":
+						case pl.driver == "edi":
 							real = runEDI(work, units, v)
 							loose = false
+						case v == c05VariantDefaultsOmitted:
+							real = runFlat(mkOmit, flatInput(pl.driver, units, 0), nil)
 						default:
 							real = runFlat(mk, flatInput(pl.driver, units, v), nil)
 						}
